@@ -18,7 +18,7 @@ OBLIGATIONS = ['PGA.Thermo.' + t for t in [
     'C06_empty_intersection_rejected', 'C06_table_outside_errors', 'C06_nonpositive_T_rejected',
     'C06_table_setRange_outside_errors', 'C06_table_setRange_inside_value', 'C06_table_setRange_reversed',
     'C06_correlation_outside_errors', 'C06_correlation_outside_signalled', 'C06_estimate_outside_signalled',
-    'C06_table_inside_value', 'C06_estimate_inside_value', 'C06_no_internal_error', 'C06_array_checked_elementwise', 'C06_tab_shipped_ranges', 'C06_tab_shipped_ranges_spec',
+    'C06_table_inside_value', 'C06_estimate_inside_value', 'C06_no_internal_error', 'C06_array_checked_elementwise', 'C06_array_check_perm', 'C06_array_check_append', 'C06_tab_shipped_ranges', 'C06_tab_shipped_ranges_spec',
     'F27_unsignalled_before_repair']]
 RULE = ('cases = (correlation or estimate, temperature, property) triples. Correlations: ThermochemRawData / Incomplete / Group, with '
         'and without Cp data (tables of 1..8 points), with / without reference values, range present / absent / degenerate, T_ref '
